@@ -15,6 +15,8 @@ package rueidis
 // Lua.sha1Mu (WithLoadSHA1) is held across the SCRIPT LOAD round trip; a goroutine blocked on a sync.RWMutex is not
 // durably blocked for synctest. The scheduler therefore never starts a call on a load-SHA1 script whose SHA is still
 // unknown while another call on the same Lua object is in flight (Task.Hold, decided at quiescence with TryRLock).
+// Variant race does not hold back: there the lock is acquired through the lock seam of hook commit 3ef6acd (a scheduling
+// point before the write lock is taken, waiters poll once per scheduling decision), so first calls overlap.
 // On a cluster client an Exec of a load-SHA1 script whose SHA is unknown would send the key-less SCRIPT LOAD to the
 // node Go's map iteration yields first (cluster._pick(InitSlot)): such calls are issued as a one-unit ExecMulti.
 
@@ -49,6 +51,7 @@ type luaX struct {
 	Shards   int             `json:"shards,omitempty"`   // 0 = one stand-alone node and a single-node client
 	Replicas int             `json:"replicas,omitempty"` // the first Replicas shards get one replica each
 	Preload  [][2]int        `json:"preload,omitempty"`  // [script, node]: loaded into that node's cache before the workload
+	Race     bool            `json:"race,omitempty"`     // first calls of a load-SHA1 script may overlap (lock seam, no hold-back)
 }
 
 func (k luaScriptSpec) readOnly() bool { return k.Kind == "ro" || k.Kind == "ro-nosha" }
@@ -108,10 +111,20 @@ func genLuaExec(seed uint64, tier, variant string) any {
 	nodes := luaNodeCount(x)
 	faulty := r.IntN(2) == 0
 	ns := 1 + r.IntN(4)
+	if variant == "race" {
+		// variant race: a stand-alone node, one or two scripts that mostly ask the server for their SHA, and no
+		// hold-back of overlapping first calls - the SHA lock of lua.go is acquired through the scheduler's lock seam
+		x.Race = true
+		ns = 1 + r.IntN(2)
+		faulty = r.IntN(3) == 0
+	}
 	for i := 0; i < ns; i++ {
 		sp := luaScriptSpec{Kind: pick(r, "plain", "plain", "ro", "nosha", "ro-nosha", "retryable", "retryable", "nosha-retryable")}
 		if !sp.noSha() && r.IntN(3) == 0 {
 			sp.Load = true
+		}
+		if x.Race {
+			sp = luaScriptSpec{Kind: pick(r, "plain", "ro", "retryable"), Load: r.IntN(5) != 0}
 		}
 		x.Scripts = append(x.Scripts, sp)
 		if r.IntN(3) == 0 {
@@ -539,6 +552,10 @@ func luaRun(t *testing.T, seed uint64, p *Plan, x luaX, out *Outcome) *luaEnv {
 			}
 			s.Settle = func(*sched.Sim) { le.luaSettle() }
 			// sha1Mu: see the file comment
+			if x.Race {
+				rwLockSeam.Store(true)
+				return
+			}
 			s.OnStep = func(s *sched.Sim) error {
 				running := make([]int, len(le.lua))
 				for ti, t := range s.Tasks {
@@ -892,6 +909,9 @@ func checkLuaExec(le *luaEnv) {
 			out.probe("ghost-script-flush")
 			break
 		}
+	}
+	if s.Stats["rwlock.write-wait"] > 0 {
+		out.probe("first-execs-of-load-sha1-script-overlapped")
 	}
 	if s.Stats["lua.first-exec-held-back"] > 0 {
 		out.probe("first-exec-of-load-sha1-script-started-alone")
